@@ -1,0 +1,170 @@
+//go:build verif
+
+package generator
+
+// Thin safety contracts inferred from the code and its call sites by
+// `goagvc infer` (Houdini-style: candidates that do not verify are dropped).
+// Comment-only file; every clause is re-checked on every run: `requires` at
+// every call site, `ensures` at every return of the function.
+
+//@ func (*Components).AddSchema(name any, s any, cfg any) (r0 any)
+//@   option props=C15
+//@   option inferred=true
+//@   requires c != nil
+//@   ensures r0 != nil
+
+//@ func (*Generator).ClientFile(cfg any) (r0 any)
+//@   option props=C15
+//@   option inferred=true
+//@   requires g != nil
+
+//@ func (*Generator).ComponentsFile(cfg any) (r0 any)
+//@   option props=C15
+//@   option inferred=true
+//@   requires g != nil
+
+//@ func (*Generator).HandlerFile(cfg any) (r0 any)
+//@   option props=C15
+//@   option inferred=true
+//@   requires g != nil
+
+//@ func (*Generator).RouterFile() (r0 any)
+//@   option props=C15
+//@   option inferred=true
+//@   requires g != nil
+
+//@ func (*Generator).SpecFile(fileContent any) (r0 any)
+//@   option props=C15
+//@   option inferred=true
+//@   requires g != nil
+
+//@ func (*Route).Add(pi any) ()
+//@   option props=C15
+//@   option inferred=true
+//@   requires pi != nil
+
+//@ func (FormatterFunc).RenderFormat(from any) (r0 any, r1 any)
+//@   option props=C15
+//@   option inferred=true
+//@   requires f != nil
+
+//@ func (GoTypeRenderFunc).Render() (r0 any, r1 any)
+//@   option props=C15
+//@   option inferred=true
+//@   requires r != nil
+
+//@ func (ParserFunc).ParseString(to any, from any, isNew any, mkErr any) (r0 any, r1 any)
+//@   option props=C15
+//@   option inferred=true
+//@   requires p != nil
+
+//@ func (PathParameters).Get(name any) (r0 any, r1 any)
+//@   option props=C15
+//@   option inferred=true
+//@   ensures r1 == nil ==> r0 != nil
+
+//@ func (RenderFunc).Render() (r0 any, r1 any)
+//@   option props=C15
+//@   option inferred=true
+//@   requires r != nil
+
+//@ func (genOptionFunc).apply(o any) ()
+//@   option props=C15
+//@   option inferred=true
+//@   requires f != nil
+
+//@ func BasePath(basePath any) (r0 any)
+//@   option props=C15
+//@   option inferred=true
+//@   ensures r0 != nil
+
+//@ func NewGenerator(spec any, cfg any, opts any) (r0 any, r1 any)
+//@   option props=C15
+//@   option inferred=true
+//@   requires spec != nil
+//@   ensures r1 == nil ==> r0 != nil
+
+//@ func NewHandler(o any, basePathPrefix any, components any, cfg any) (r0 any, r1 any, r2 any)
+//@   option props=C15
+//@   option inferred=true
+//@   ensures r2 == nil ==> r0 != nil
+
+//@ func NewHeaderParameter(sr any, components any, cfg any) (r0 any, r1 any, r2 any)
+//@   option props=C15
+//@   option inferred=true
+//@   ensures r2 == nil ==> r0 != nil
+
+//@ func NewOperation(s any, components any, cfg any) (r0 any, r1 any, r2 any)
+//@   option props=C15
+//@   option inferred=true
+//@   ensures r2 == nil ==> r0 != nil
+
+//@ func NewOperationName(method any, s any, path any) (r0 any)
+//@   option props=C15
+//@   option inferred=true
+//@   requires s != nil
+
+//@ func NewPathParameter(rs any, components any, cfg any) (r0 any, r1 any, r2 any)
+//@   option props=C15
+//@   option inferred=true
+//@   ensures r2 == nil ==> r0 != nil
+
+//@ func NewQueryParameter(refP any, components any, cfg any) (r0 any, r1 any, r2 any)
+//@   option props=C15
+//@   option inferred=true
+//@   ensures r2 == nil ==> r0 != nil
+
+//@ func NewResponse(handlerName any, status any, response any, components any, cfg any) (r0 any, r1 any, r2 any)
+//@   option props=C15
+//@   option inferred=true
+//@   ensures r2 == nil ==> r0 != nil
+
+//@ func NewRouter(s any, ps any, os any, opt any) (r0 any)
+//@   option props=C15
+//@   option inferred=true
+//@   requires s != nil
+
+//@ func PackageName(packageName any) (r0 any)
+//@   option props=C15
+//@   option inferred=true
+//@   ensures r0 != nil
+
+//@ func SkipDoNotEdit() (r0 any)
+//@   option props=C15
+//@   option inferred=true
+//@   ensures r0 != nil
+
+//@ func SpecFilename(specFilename any) (r0 any)
+//@   option props=C15
+//@   option inferred=true
+//@   ensures r0 != nil
+
+//@ func newErrorFunc() (r0 any, r1 any)
+//@   option props=C15
+//@   option inferred=true
+//@   ensures r1 == nil ==> r0 != nil
+
+//@ func newReturnsFunc(returns any, e any) (r0 any, r1 any)
+//@   option props=C15
+//@   option inferred=true
+//@   ensures r1 == nil ==> r0 != nil
+
+//@ func newSchemaType(spec any, components any, cfg any) (r0 any, r1 any, r2 any)
+//@   option props=C15
+//@   option inferred=true
+//@   ensures r2 == nil ==> r0 != nil
+
+//@ func parseErrorFunc(k any, p any) (r0 any, r1 any)
+//@   option props=C15
+//@   option inferred=true
+//@   ensures r1 == nil ==> r0 != nil
+
+//@ func prefixErrorFunc(prefix any) (r0 any, r1 any)
+//@   option props=C15
+//@   option inferred=true
+//@   ensures r1 == nil ==> r0 != nil
+
+//@ func wrapErrorFunc(prefix any, mkErr any) (r0 any)
+//@   option props=C15
+//@   option inferred=true
+//@   ensures r0 != nil
